@@ -11,10 +11,27 @@ TRUSTED = simcheck.TRUSTED_SIM + [
     "cancellation closure: TaskGraph.cancel is modelled in Model/TaskGraph.v (hand-written, tied by the S-taskgraph stream)"]
 
 
+def replay_known(ctx):
+    import json
+    import core
+    import simcommon
+    for k in core.load_known():
+        if k.get("status") == "known" and k.get("property") == "C06" and k.get("id") == "FTG3":
+            w = json.load(open(os.path.join(core.ROOT, k["witness"])))
+            r = simcommon.run_worlds([w], jobs=1, chunk=1)[0]
+            hits = []
+            simmon.mon_c06(r, hits)
+            if hits:
+                ctx.known("FTG3", k["what_fails"])
+
+
 def run(ctx):
-    simcheck.run_sim_property(ctx, ["C06_sim"], lambda r, w: simmon.mon_c06(r),
+    seen = []
+    simcheck.run_sim_property(ctx, ["C06_sim"], lambda r, w: simmon.mon_c06(r, seen),
                               "a task left the documented lifecycle, a cancelled task kept its placement or started, or a "
                               "graph was (not) reported finished against the state of its sinks")
+    ctx.cov.setdefault("input_distribution", {})["starts_matching_known_finding_FTG3"] = len(seen)
+    replay_known(ctx)
     if os.path.exists(os.path.join(os.path.dirname(__file__), "c06_closure.py")):
         part = importlib.import_module("props.c06_closure")
         part.run(ctx)
